@@ -15,7 +15,9 @@ Types are abstracted to what `as_pointer` / `is_pointer` / `Ty::File` / `Ty::Opt
 `getMutability fixed e assignment deref`:
 * `fixed = false` is the function as pinned in /repo (`get_mutability` = the syntactic walk),
 * `fixed = true` is the function after FIX.patch: the old body is `get_mutability_by_form`, and
-  `get_mutability` consults the pointer type of `expr` whenever `deref` is set.
+  `get_mutability` consults the pointer type of `expr` whenever `deref` is set; and `e[i]` /
+  `e.field` over two or more pointer levels are decided by the innermost level
+  (`innermost_auto_deref`, the second `fix:` commit of C14).
 Both are transcribed arm by arm, in the order of the Rust `match`.
 -/
 namespace CapyV.Mutability
@@ -40,6 +42,22 @@ def Ty.asPointer : Ty → Option (Bool × Ty)
 def Ty.isPointer : Ty → Bool
   | .ptr _ _ => true
   | _ => false
+
+/-- the pointer levels that `e[i]` / `e.field` follow when `e : ty` (every one of them: the typer's
+`while let Some((_, sub_ty)) = ty.as_pointer()`), outermost first -/
+def Ty.levels : Ty → List Bool
+  | .ptr m t => m :: t.levels
+  | _ => []
+
+/-- what is found below all pointer levels -/
+def Ty.bottom : Ty → Ty
+  | .ptr _ t => t.bottom
+  | t => t
+
+/-- `innermost_auto_deref` (fix 3 of C14): with two or more pointer levels, the mutability of the
+innermost one; `none` with fewer (the ordinary walk handles those) -/
+def Ty.innermostAutoDeref (t : Ty) : Option Bool :=
+  if 2 ≤ t.levels.length then t.levels.getLast? else none
 
 /-- `ExprMutability` without the text ranges (they only place the help message) -/
 inductive Mut where
@@ -91,19 +109,21 @@ def typeOf : Expr → Option Ty
     | some (.ptr _ t) => some t
     | _ => none
   | .index e => match typeOf e with
-    | some (.arr t) => some t
-    | some (.ptr _ (.arr t)) => some t      -- auto-deref
-    | _ => none
+    | some t => match t.bottom with         -- auto-deref of every pointer level
+      | .arr u => some u
+      | _ => none
+    | none => none
   | .blockTail e => typeOf e
   | .loc _ ty _ => some ty
   | .locNoInit _ ty => some ty
   | .param ty => some ty
   | .global ty => some ty
   | .member prev ty => match typeOf prev with
-    | some (.struct _) => some ty
-    | some (.ptr _ (.struct _)) => some ty  -- auto-deref
     | some .file => some ty
-    | _ => none
+    | some t => match t.bottom with         -- auto-deref of every pointer level
+      | .struct _ => some ty
+      | _ => none
+    | none => none
   | .call ty => some ty
   | .cast ty => some ty
   | .paren e => typeOf e
@@ -130,6 +150,16 @@ def byType (fixed : Bool) (ty : Ty) (deref : Bool) (byForm : Mut) : Mut :=
       | .mutable => .immutableRef
       | other => other
     | none => byForm
+
+/-- the `Index` / `Member` arms: `innermost_auto_deref` first, the ordinary walk otherwise -/
+def autoArm (inner : Option Bool) (walkDeref walk : Mut) : Mut :=
+  match inner with
+  | some true => .mutable
+  | some false =>
+    match walkDeref with
+    | .mutable => .immutableRef
+    | other => other                  -- "keep the more precise help of the ordinary walk"
+  | none => walk
 
 /-- the `Expr::Param` arm -/
 def paramArm (ty : Ty) (assignment deref : Bool) : Mut :=
@@ -163,7 +193,10 @@ def getMutability (fixed : Bool) : Expr → Bool → Bool → Mut
   | .deref p, a, d =>
     byType fixed (tyOf (.deref p)) d (getMutability fixed p a true)
   | .index arr, a, d =>
-    byType fixed (tyOf (.index arr)) d (getMutability fixed arr a (d || (tyOf arr).isPointer))
+    byType fixed (tyOf (.index arr)) d
+      (autoArm (if fixed then (tyOf arr).innermostAutoDeref else none)
+        (getMutability fixed arr a true)
+        (getMutability fixed arr a (d || (tyOf arr).isPointer)))
   | .blockTail t, a, d =>
     byType fixed (tyOf (.blockTail t)) d (getMutability fixed t a d)
   | .loc mutable ty init, _, d =>
@@ -185,7 +218,10 @@ def getMutability (fixed : Bool) : Expr → Bool → Bool → Mut
            (match ty.asPointer with
             | some (m, _) => if m then .mutable else .immutableRef
             | none => .mutable)                       -- `.unwrap_or(true)`
-         else getMutability fixed prev a (d || prevTy.isPointer))
+         else
+           autoArm (if fixed then prevTy.innermostAutoDeref else none)
+             (getMutability fixed prev a true)
+             (getMutability fixed prev a (d || prevTy.isPointer)))
   | .call ty, _, d =>
     byType fixed ty d (if d then .mutable else .cannotMutateExpr)
   | .cast ty, a, d =>
